@@ -51,8 +51,12 @@ class Lexer:
         by the sqlparse core functions."""
         with cls._lock:
             if cls._default_instance is None:
-                cls._default_instance = cls()
-                cls._default_instance.default_initialization()
+                # publish the instance only when it is completely set up:
+                # if initialization fails (e.g. RecursionError on a nearly
+                # exhausted stack) the next call starts over
+                instance = cls()
+                instance.default_initialization()
+                cls._default_instance = instance
         return cls._default_instance
 
     def default_initialization(self):
